@@ -220,7 +220,17 @@ fn add_op(rng: &mut Rng, used: &mut Vec<u16>, allow_dup: bool) -> String {
             let f = rand_fields(rng, k);
             return format!("a/{}/{}", k, f);
         } else {
-            let ty = match rng.below(5) {
+            let ty = match rng.below(6) {
+                // types that differ from an ending type (or from an ordinary known type) in one or two bits:
+                // an index keyed on part of the type value would confuse them
+                5 => {
+                    let base = *rng.pick(&[0x0008u16, 0x001c, 0x8028, 0x8028, 0x0006, 0x8022]);
+                    let mut t = base ^ (1u16 << rng.below(16));
+                    if rng.chance(1, 3) {
+                        t ^= 1u16 << rng.below(16);
+                    }
+                    if t == 0x0008 || t == 0x001c || t == 0x8028 { 0x9999 } else { t }
+                }
                 4 => *rng.pick(&[0x0000u16, 0x0001, 0x7fff, 0x8000, 0xffff, 0x0007, 0x8029 ^ 0x0100]),
                 0 => 0x7f00 + rng.below(3) as u16,
                 1 => 0xff00 + rng.below(3) as u16,
